@@ -24,6 +24,22 @@
   index), `Entry.req`, the position of the frame of an in-flight request (`Stage.out`/`Stage.back`:
   both are slot state `Sent`), and `St.log` (what the segment processed, in its order).
 
+  ONE SLOT PER IN-FLIGHT REQUEST.  A task holds a slot from `issue` to `consume` and never two at a
+  time: `issue` is enabled only when the task holds no slot.  This is how the code at the pinned
+  revision behaves for every operation the harness drives, also for operations of several frames:
+    * `SubDeviceGroup::tx_rx` — the `ReceivedPduIter` (`pdus`, owner of the `ReceivedFrame`, slot in
+      `RxProcessing`) is a local of the loop body and is dropped at the end of each iteration, i.e.
+      BEFORE the next iteration's `alloc_frame()`; a cycle of k frames needs one slot, k times;
+    * `Command::…::receive*/send*`, the mailbox and SII transactions — every `ReceivedPdu` is consumed
+      (copied/unpacked) before the next request is built.
+  The harness checks exactly this on the real code (c20.rs: groups whose cycle spans 2..5 frames on
+  storages with one slot per task; monitor `c20/spurious-swapstate` = an operation failed with
+  SwapState while fewer frames were IN FLIGHT than the storage holds).  A change that keeps a response
+  alive across the next `alloc_frame` (two slots for one frame in flight) breaks the correspondence
+  there: the model predicts `f=0` and a result for the operation, the code returns SwapState.
+  Known exception by reading (not reachable with the simulated CoE server, whose segmented upload
+  ethercrab cannot decode): `Coe::sdo_read` keeps the initiate response alive during a SEGMENTED upload.
+
   Not modelled here (assumptions of C20, see Props/C20.lean): PDU timeouts and retries (timeouts are
   large: a slot is released only by its requester picking up the response), a second task cycling
   the SAME group.
